@@ -305,7 +305,7 @@ func c09(r *ev.Run) {
 	r.Sample(map[string]any{"class": c09Case{"ValidateHOTP", 6, 0, 2, -1}, "meaning": "fixed key; the code of window position -1 with its character j replaced, for every j = 0..5; all six calls must reject and produce one identical trace of statement ids and comparison events"})
 	r.Sample(map[string]any{"class": c09Case{"wasm:validateTOTP", 8, 2, 10, 10}, "meaning": "the binding's own window loop, executed natively over a fake syscall/js"})
 	r.Rule("for every entry point (3 library validators, the wasm-tagged validator built natively, 3 REST validate handlers in-process, the 2 wasm binding validators over a fake syscall/js) x digits x hash x window size {0,1,2,10} x window position: the d wrong codes differing from that window code in exactly one position are submitted to the instrumented code; oracle: all rejected, all traces (statement ids + comparison events incl. index of first mismatch for every early-exit comparison of strings/bytes) identical; state = comparison class, transition = traced call; distinct = distinct (entry, verdict, trace length)")
-	r.Assume("leak model: an early-exit comparator's time is a function of the index of the first mismatch, a constant-time comparator's is not; decides a model, not nanoseconds", "switch statements on strings and map lookups are not rewritten by the instrumenter (no such construct touches the expected code on the current tree)", "the js/wasm binding is traced natively over a fake syscall/js; crypto/subtle and the Go compiler are trusted")
+	r.Assume("leak model: an early-exit comparator's time is a function of the index of the first mismatch, a constant-time comparator's is not; decides a model, not nanoseconds", "the instrumenter makes visible: ==/!=/ordering on strings and byte arrays, bytes.*/strings.*/slices.*/sort.SearchStrings/reflect.DeepEqual comparisons, string switches with non-constant cases, lookups in maps with string keys; byte-wise loops show in the statement trace; comparisons hidden inside other library routines are outside the model", "the js/wasm binding is traced natively over a fake syscall/js; crypto/subtle and the Go compiler are trusted")
 }
 
 func otpSelfTest(a, b string) bool { return a == b }
